@@ -75,6 +75,14 @@ type CreditTransfer struct {
 	Branch *org.Address `json:"branch,omitempty" jsonschema:"title=Branch"`
 }
 
+// Validate ensures the credit transfer details look correct: the branch
+// address, when given, follows the same rules as any other address.
+func (ct *CreditTransfer) Validate() error {
+	return validation.ValidateStruct(ct,
+		validation.Field(&ct.Branch),
+	)
+}
+
 // Online provides the details required to make a payment online using a website
 type Online struct {
 	// Key identifier for this online payment method.
